@@ -421,3 +421,39 @@ def r10(ctx, R):
             name = x.fn.name
             ok = name in ('predict', 'restrict') and x.rhs() == 'True' or (x.cls is not None and x.cls.name == '_Status' and name == '__init__')
             R.check(ok, f'{(x.cls.name + ".") if x.cls else ""}{name} :: {x.target} = {x.rhs()}', x.qual, 'status.unlocked is set only by predict()/restrict() (and initialised False)', f'{x.target} = {x.rhs()}')
+
+
+COMM_ORDER = {
+    'it_fine': ['send_full', 'recv_full', 'update_nodes'],
+    'it_down': ['send_full', 'recv_full', 'update_nodes'],
+    'it_up': ['send_full', 'recv_full', 'update_nodes'],
+    'it_coarse': ['recv_full', 'update_nodes', 'send_full'],
+}
+
+
+@rule('C07', 'C07.R11', 'forward transfers are produced and consumed in the right order inside every iteration handler: on fine and middle levels a step first SENDS its current end value, then receives, then sweeps; on the coarsest level it receives, sweeps, then sends (otherwise a receive picks up the message of an earlier stage with the same tag)', floor=7)
+def r11(ctx, R):
+    repo = ctx.repo
+    for spec in (ct.NONMPI, ct.MPI):
+        rel, cn = spec[0], spec[1]
+        ci = repo.cls(rel, cn)
+        for meth, want in COMM_ORDER.items():
+            fn = ci.methods.get(meth)
+            if fn is None:
+                raise AnalysisError(f'{rel}:{cn}.{meth} vanished')
+            w = f'{rel}:{cn}.{meth}'
+            R.fn(w)
+            seq = sorted((c.lineno, c.col_offset, c.func.attr) for c in ast.walk(fn) if isinstance(c, ast.Call) and isinstance(c.func, ast.Attribute) and c.func.attr in ('send_full', 'recv_full', 'update_nodes'))
+            names = [x[2] for x in seq]
+            R.check(names == want, f'{cn}.{meth} :: order of send / receive / sweep', w, want, names)
+            # the send and the receive address the same level as the sweep
+            lv = {}
+            for c in ast.walk(fn):
+                if isinstance(c, ast.Call) and isinstance(c.func, ast.Attribute):
+                    if c.func.attr in ('send_full', 'recv_full'):
+                        lv[c.func.attr] = next((ast.unparse(k.value) for k in c.keywords if k.arg == 'level'), None)
+                    elif c.func.attr == 'update_nodes':
+                        m = re.search(r'levels\[(.+)\]\.sweep$', ast.unparse(c.func.value))
+                        lv['update_nodes'] = m.group(1) if m else None
+            norm = lambda x: {'len(S.levels) - 1': '-1', 'len(self.S.levels) - 1': '-1'}.get(x, x)
+            R.check(len({norm(v) for v in lv.values()}) == 1 and None not in lv.values(), f'{cn}.{meth} :: send, receive and sweep address the same level', w, 'one level expression', lv)
